@@ -135,6 +135,16 @@ func decode(dst ivg.Destination, p printer, m *ivg.Metadata, metadataOnly bool, 
 	for _, opt := range opts {
 		opt(m)
 	}
+	if len(opts) > 0 {
+		// Some user-given colors may be nonsensical as alpha-premultiplied
+		// colors. Such colors are replaced by opaque black and not
+		// re-interpreted as gradients.
+		for i, c := range m.Palette {
+			if !ivg.ValidAlphaPremulColor(c) {
+				m.Palette[i] = color.RGBA{0x00, 0x00, 0x00, 0xff}
+			}
+		}
+	}
 	if metadataOnly {
 		return nil
 	}
